@@ -591,7 +591,10 @@ func (d *driver) syncQuiet(rounds int) {
 	for _, x := range d.waiters {
 		if x.done && !x.out {
 			x.out = true
-			if x.inst.in.dead || x.dup {
+			// the outcomes a crashed instance hands out after its death are artefacts of the simulated crash;
+			// a SUCCESSFUL acknowledgement is not: the round that produced it completed before the crash, only
+			// its waiter goroutine reported late (loaded machine)
+			if x.dup || (x.inst.in.dead && strings.Contains(x.line, "err:")) {
 				continue
 			}
 			lines = append(lines, "> "+x.line)
